@@ -5,6 +5,8 @@
 #     independently (python int/float/float.fromhex are exact / correctly rounded) and, for integer numerals,
 #     also by the extracted Coq model Front/Lex.v (S = manual, IM = ast.NewNumber).
 # (c) programs rendered in equivalent spellings must give identical results and traces.
+import json
+import os
 import re
 import struct
 
@@ -270,6 +272,23 @@ def check_literals(ck, gvh, oracle, tier, st):
     for i, l in zip(oidx, oo):
         f = l.split(" ")
         model[i] = (f[1], f[2])   # S, IM  each  i<dec> | F<dec nat to be converted to float>
+    # the Coq model of string denotations (LexStr.unescape / long_denot) on the same spellings
+    sl, sidx = [], []
+    for i, c in enumerate(cases):
+        if c["kind"].startswith("short"):
+            body = normalize_nl(c["src"][1:-1].decode("latin-1")).encode("latin-1")
+            sl.append("s%d S %s" % (i, body.hex() or "-"))
+            sidx.append(i)
+        elif c["kind"].startswith("long"):
+            sl.append("s%d L %s" % (i, c["src"].hex()))
+            sidx.append(i)
+    rc, so, se = vlib.run_lines(oracle, [], sl, timeout=600)
+    smodel = {}
+    if rc != 0 or len(so) != len(sl):
+        ck.violation("oracle crashed on string literals (%d/%d)" % (len(so), len(sl)), {"kind": "oracle-crash", "stderr": se[-1500:]}, no_input=True)
+    else:
+        for i, l in zip(sidx, so):
+            smodel[i] = l.split(" ")[1]
     for i, c in enumerate(cases):
         status, ret, msg = lua_result(out[i])
         ck.count("b:" + c["kind"].split("+")[0])
@@ -283,8 +302,21 @@ def check_literals(ck, gvh, oracle, tier, st):
             if s_den != c["want"]:
                 ck.violation("Lex.v S-model disagrees with the python reference on numeral " + c["text"], dict(rep, kind="model-self"), no_input=True)
                 continue
+        if i in smodel:
+            rep["model_S"] = smodel[i]
+            if smodel[i] != c["want"]:
+                ck.violation("LexStr.v disagrees with the python reference on " + c["src"].decode("latin-1")[:60].encode("unicode_escape").decode(),
+                             dict(rep, kind="model-self"), no_input=True)
+                continue
         if got == c["want"]:
             if i in model and im_den != got:
+                if c["kind"] == "dec-int" and TWO63 <= int(c["text"]) < TWO64:
+                    # the recorded defect C12-decimal-overflow-integer no longer shows: ast/number.go was repaired
+                    # (by the `num` agent); Lex.go_dec is then stale on exactly this class — noted, not a violation
+                    if not any("go_dec" in n for n in ck.notes):
+                        ck.notes.append("C12-decimal-overflow-integer no longer reproduces: Lex.go_dec (IM of ast.NewNumber) is stale on [2^63,2^64); "
+                                        "replace go_dec by s_dec and the _partial/_refuted pair by the full theorem")
+                    continue
                 st["go_ne_im"] += 1
                 st["first_im"] = st["first_im"] or rep
             continue
@@ -362,10 +394,17 @@ def check_renderings(ck, gvh, tier, st):
     for pi, (rends, _) in enumerate(PROGRAMS):
         for ri, src in enumerate(rends):
             lines.append("p%d_%d %s chunk=chunk" % (pi, ri, hexsrc(src)))
-    # the known-finding witness for parentheses around '...'
-    lines.append("pv %s chunk=chunk args=i1,i2,i3" % hexsrc("return (...)"))
-    lines.append("pw %s chunk=chunk args=i1,i2,i3" % hexsrc("local a, b = ... , 0 return #{(...)}, select('#', (...))"))
-    lines.append("pc %s chunk=chunk" % hexsrc("return 1 --[\n+ 1"))
+    # witnesses of repaired / recorded findings (corpus/C12/*.jsonl): replayed on every run
+    wit = []
+    cdir = os.path.join(vlib.VERIF, "corpus", "C12")
+    if os.path.isdir(cdir):
+        for fn in sorted(os.listdir(cdir)):
+            if fn.endswith(".jsonl"):
+                for l in open(os.path.join(cdir, fn)):
+                    if l.strip():
+                        wit.append(json.loads(l))
+    for wi, w in enumerate(wit):
+        lines.append("w%d %s chunk=chunk args=%s" % (wi, hexsrc(w["src"]), w.get("args", "-")))
     out = vlib.run_lines_resilient(gvh, ["lua"], lines, per_case_timeout=30)
     res = {l.split(" ")[0]: l for l in out}
     for pi, (rends, _) in enumerate(PROGRAMS):
@@ -383,19 +422,24 @@ def check_renderings(ck, gvh, tier, st):
                               "expected": base or "ok", "got": l[:600], "first_rendering": rends[0]})
             if base is None:
                 base = obs
-    # witnesses of recorded findings: replayed on every run
-    for cid, kid, good in (("pv", "C12-paren-vararg", "R:i1"), ("pw", "C12-paren-vararg", "R:i1,i1"), ("pc", "C12-comment-bracket-newline", "R:i2")):
-        l = res.get(cid, "")
+    for wi, w in enumerate(wit):
+        l = res.get("w%d" % wi, "")
+        status, ret, msg = lua_result(l)
         ck.count("c:finding-witness")
-        ok_now = (" " + good + " ") in (l + " ")
-        k = ck.known_match(lambda k_: k_["id"] == kid)
-        if not ok_now:
-            if k is not None:
-                ck.known_finding(k)
-            else:
-                st["go_ne_s"] += 1
-                ck.violation("witness of %s fails and the finding is not recorded" % kid,
-                             {"kind": "Go!=S", "engine": "front", "mode": "lua", "got": l[:400], "expected": good})
-        elif k is not None:
-            ck.notes.append("recorded finding %s: witness no longer fails (repaired?) — model/notes are stale" % kid)
+        ck.case("witness:" + w["src"], True)
+        want_status, want = w["expect"].split(" ", 1)
+        if want.startswith("R:"):
+            good = status == want_status and ret == want[2:]
+        else:
+            good = status == want_status and msg.startswith(want[2:])
+        if good:
+            continue
+        k = ck.known_match(lambda k_: k_["id"] == w["id"])
+        if k is not None:
+            ck.known_finding(k)
+        else:
+            st["go_ne_s"] += 1
+            ck.violation("corpus witness of %s fails again: %r" % (w["id"], w["src"][:60]),
+                         {"kind": "Go!=S", "engine": "front", "mode": "lua", "source_hex": hexsrc(w["src"]), "source": w["src"],
+                          "expected": w["expect"], "got": l[:400], "finding": w["id"]})
     ck.log("(c) %d renderings" % (len(lines)))
